@@ -1,3 +1,5 @@
+CONSTANTS
+  MaxTok = @MAXTOK@
 INIT Init
 NEXT Next
 INVARIANTS PGrant PStar PVary Emit
